@@ -347,7 +347,11 @@ pub fn build(
         };
 
         let mut add_functions = |functions: &[Function]| {
-            for function in functions.iter().filter(|f| f.is_public()) {
+            // internal functions (`_name`) get no wrapper on the base, so there is nothing to forward to
+            for function in functions
+                .iter()
+                .filter(|f| f.is_public() && !f.is_internal())
+            {
                 let mut function = function.clone();
                 let original_name = function.name.clone();
                 if associated_functions_used_names.contains(&original_name) {
